@@ -163,8 +163,7 @@ Definition rouchon_obs (H : mat) (sc_ops c_ops : list mat) (rho : mat) (dt : Q) 
    (compared by an index: the harness numbers the (t, state) pairs it sets);
    what is modelled is WHICH (t, state) each returned term was computed from.
    A cached term carries the index of the set_state call it was computed
-   after; L0a additionally carries the index its input `_a` came from,
-   because _compute_L0a uses self._a without looking at _a_set.             *)
+   after; L0a additionally carries the index its input `_a` came from.      *)
 Inductive term := Ta | Tb | TLb | TLa | TL0b | TLLb | TL0a | Texpect.
 
 Record cache := {
@@ -238,9 +237,10 @@ Definition compute_LLb (c0 : cache) : cache :=
      L0b_set := L0b_set c; L0b_from := L0b_from c; LLb_set := true; LLb_from := cur c;
      L0a_set := L0a_set c; L0a_from := L0a_from c; L0a_a_from := L0a_a_from c |}.
 
-(* _compute_L0a: L.matmul(self._a) - NO `if not self._a_set` before it *)
-Definition compute_L0a (c : cache) : cache :=
-  if L0a_set c then c else
+(* _compute_L0a: `if not self._a_set: self._compute_a()`, then L.matmul(self._a) *)
+Definition compute_L0a (c0 : cache) : cache :=
+  if L0a_set c0 then c0 else
+  let c := compute_a c0 in
   {| cur := cur c; a_set := a_set c; a_from := a_from c; b_set := b_set c; b_from := b_from c;
      Lb_set := Lb_set c; Lb_from := Lb_from c; La_set := La_set c; La_from := La_from c;
      L0b_set := L0b_set c; L0b_from := L0b_from c; LLb_set := LLb_set c; LLb_from := LLb_from c;
